@@ -814,32 +814,50 @@ func runPolygon(c *vkit.Collector, rng *vkit.Rng, k int, withT bool) {
 			ctrs = append(ctrs, ctr)
 		}
 	} else {
-		// several top-level shells, the SMALL one first in loop order (Polygon.Invert inverts
-		// the largest shell and must keep the shells stored before it), the last loop a hole
-		// of the big shell when there are three
-		if r > 0.5 {
-			r = 0.5
+		// 2-5 disjoint top-level shells on a ring around ctr, their sizes in a random order
+		// (Polygon.Invert inverts the LARGEST shell and must keep the shells stored before
+		// it as well as after it), some carrying a hole, some holes an island
+		if r > 0.3 {
+			r = 0.3
 		}
 		cl = "multi-shell/" + cl
 		x, y := frame(ctr)
-		rSmall, rBig := 0.3*r, r
-		d := 2.2 * (rSmall + rBig)
-		th := rng.Range(0, 2*math.Pi)
-		dir := x.Mul(math.Cos(th)).Add(y.Mul(math.Sin(th)))
-		ctrB := s2.Point{Vector: ctr.Mul(math.Cos(d)).Add(dir.Mul(math.Sin(d))).Normalize()}
-		loopsPts = append(loopsPts, starPoints(ctr, ns[0], func(int) float64 { return rSmall }))
-		ctrs = append(ctrs, ctr)
-		loopsPts = append(loopsPts, starPoints(ctrB, ns[1], func(int) float64 { return rBig }))
-		ctrs = append(ctrs, ctrB)
-		if nl == 3 {
-			if rng.Bool() { // hole of the big shell
-				loopsPts = append(loopsPts, starPoints(ctrB, ns[2], func(int) float64 { return 0.4 * rBig }))
-				ctrs = append(ctrs, ctrB)
-			} else { // a third shell, smaller still, on the other side of the big one
-				ctrC := s2.Point{Vector: ctrB.Mul(math.Cos(d)).Add(ctrB.Cross(dir).Normalize().Mul(math.Sin(d))).Normalize()}
-				loopsPts = append(loopsPts, starPoints(ctrC, ns[2], func(int) float64 { return 0.2 * r }))
-				ctrs = append(ctrs, ctrC)
+		S := 2 + rng.Intn(4)
+		sizes := []float64{1, 0.6, 0.4, 0.3, 0.2}[:S]
+		for i := S - 1; i > 0; i-- { // shuffle
+			j := rng.Intn(i + 1)
+			sizes[i], sizes[j] = sizes[j], sizes[i]
+		}
+		per := tot / (2 * S)
+		if per < 3 {
+			per = 3
+		}
+		ns = nil
+		D := 2.5 * r
+		th0 := rng.Range(0, 2*math.Pi)
+		for i := 0; i < S; i++ {
+			th := th0 + 2*math.Pi*float64(i)/float64(S)
+			dir := x.Mul(math.Cos(th)).Add(y.Mul(math.Sin(th)))
+			ci := s2.Point{Vector: ctr.Mul(math.Cos(D)).Add(dir.Mul(math.Sin(D))).Normalize()}
+			ri := r * sizes[i]
+			add := func(rr float64) {
+				m := per + rng.Intn(3)
+				loopsPts = append(loopsPts, starPoints(ci, m, func(int) float64 { return rr }))
+				ctrs = append(ctrs, ci)
+				ns = append(ns, m)
 			}
+			add(ri)
+			if rng.Intn(2) == 0 { // hole
+				add(0.5 * ri)
+				if rng.Intn(2) == 0 { // island in the hole
+					add(0.25 * ri)
+				}
+			}
+		}
+		nl = len(loopsPts)
+		tot = 0
+		for _, m := range ns {
+			tot += m
 		}
 	}
 	mk := func() *s2.Polygon {
@@ -1005,15 +1023,44 @@ func runPolygon(c *vkit.Collector, rng *vkit.Rng, k int, withT bool) {
 // polygon with exactly one of them inverted (polygon_invert_complement then says: complement)
 func runPolygonInvertT(c *vkit.Collector, k int, P, Pinv *s2.Polygon) {
 	in := newInterner()
-	term := func(Q *s2.Polygon) string {
+	term := func(Q *s2.Polygon, depth bool) string {
 		var ls []string
 		for j := 0; j < Q.NumLoops(); j++ {
 			l := Q.Loop(j)
-			ls = append(ls, fmt.Sprintf("(%s, %s)", idList(in, l.Vertices()), vkit.B(l.ContainsOrigin())))
+			if depth {
+				ls = append(ls, fmt.Sprintf("(%s, %s, %s)", idList(in, l.Vertices()), vkit.B(l.ContainsOrigin()), zs(int64(l.VerifC04Depth()))))
+			} else {
+				ls = append(ls, fmt.Sprintf("(%s, %s)", idList(in, l.Vertices()), vkit.B(l.ContainsOrigin())))
+			}
 		}
 		return vkit.List(ls)
 	}
-	c.Check(fmt.Sprintf("Polygon.Invert#%d loops=%d", k, P.NumLoops()), zcase(vkit.App("check_polygon_invert", term(P), term(Pinv))))
+	c.Check(fmt.Sprintf("Polygon.Invert#%d loops=%d", k, P.NumLoops()), zcase(vkit.App("check_polygon_invert", term(P, false), term(Pinv, false))))
+	// full layout: which loop was inverted is read off the result (its first loop)
+	best := -1
+	if Pinv.NumLoops() > 0 {
+		first := Pinv.Loop(0).Vertices()
+		for j := 0; j < P.NumLoops(); j++ {
+			v := reversed(P.Loop(j).Vertices())
+			if len(v) == len(first) {
+				same := true
+				for i := range v {
+					if v[i] != first[i] {
+						same = false
+					}
+				}
+				if same {
+					best = j
+				}
+			}
+		}
+	}
+	if best >= 0 {
+		c.Check(fmt.Sprintf("Polygon.Invert.layout#%d loops=%d best=%d", k, P.NumLoops(), best),
+			zcase(vkit.App("check_polygon_invert_layout", term(P, true), nat(best), term(Pinv, true))))
+	} else {
+		c.Violate("Polygon.Invert.layout", "the first loop of Invert()'s result is not the reversal of a loop of the polygon", map[string]interface{}{"type": "polygon-invert", "k": k})
+	}
 }
 
 // ---------- tilings ----------
